@@ -72,6 +72,7 @@ def parseOp (s : String) : Op :=
   if s == "-" then .none
   else if s == "z" then .user 2000 [] []   -- typed nil pointer operators: never storable (no usable String / Context);
   else if s == "y" then .user 2001 [] []   -- modelled as user operators with empty texts, which `setOperator` rejects
+  else if s == "w" then .user 2002 [] []   -- typed nil func-kind operator (repair F40)
   else if s.startsWith "c" then .cmp (toNat (s.drop 1).toString)
   else match splitOn (s.drop 1).toString ":" with
     | [id, a, b] => .user (if s.startsWith "v" then 1000 + toNat id else toNat id) (unhx a) (unhx b)   -- v… = slice-backed operator type
@@ -80,7 +81,7 @@ def parseOp (s : String) : Op :=
 def Op.str : Op → String
   | .none => "-"
   | .cmp c => s!"c{c}"
-  | .user id a b => if id == 2000 then "z" else if id == 2001 then "y" else if id ≥ 1000 then s!"v{id - 1000}:{hx a}:{hx b}" else s!"u{id}:{hx a}:{hx b}"
+  | .user id a b => if id == 2000 then "z" else if id == 2001 then "y" else if id == 2002 then "w" else if id ≥ 1000 then s!"v{id - 1000}:{hx a}:{hx b}" else s!"u{id}:{hx a}:{hx b}"
 
 def parseFld (s : String) : Fld :=
   match splitOn s ":" with
